@@ -12,7 +12,8 @@ std::unique_ptr<Integer> Date::toInteger() const {
     unsigned int month = static_cast<unsigned int>(date.month());
     int year = static_cast<int>(date.year());
 
-    int_t cmp = year * 372 + month * 31 + day;
+    // signed 64-bit arithmetic: with unsigned operands a negative year wrapped to a large positive key
+    int_t cmp = (int_t) year * 372 + (int_t) month * 31 + (int_t) day;
     return std::make_unique<Integer>(cmp);
 }
 
